@@ -319,6 +319,11 @@ func (prop) Generate(rng *core.Rand, tier string, emit func(string)) {
 			c++
 			continue
 		}
+		if g.rng.Chance(1, 25) {
+			emit(g.hdLine())
+			c++
+			continue
+		}
 		rs, hasErrs, errs, named := g.tree(tier)
 		// a few requests per tree: the same routes seen from different hosts/paths/methods
 		for k := 1 + g.rng.Intn(3); k > 0 && c < n; k-- {
@@ -473,6 +478,9 @@ func (prop) Run(line string) (o core.Outcome) {
 	f := strings.Fields(line)
 	if len(f) == 4 && f[0] == "he" {
 		return runHE(line, f)
+	}
+	if len(f) == 3 && f[0] == "hd" {
+		return runHD(line, f)
 	}
 	if len(f) != 3 && len(f) != 4 {
 		return core.Outcome{Impl: "bad-op", Tags: []string{"trivial", "malformed"}}
